@@ -119,14 +119,19 @@ RERef(m, cfg) ==
 (* clock: after <= t < before in the configured zone, seconds of the day;  *)
 (* before = 00:00:00 means 24:00:00; after > before are swapped.           *)
 (***************************************************************************)
-ClockMsgs == [utc : {0, 1, 3599, 3600, 43199, 43200, 86399}]      \* connection time, seconds of the UTC day
-ClockCfgs == [after : {0, 3600, 43200, 82800}, before : {0, 3600, 43200, 86399}, tz : {0, 3600, -18000}]   \* fixed offsets, seconds east
+\* connection time: seconds of the UTC day, on 15 January 2026 ("winter") or 15 July 2026 ("summer")
+ClockMsgs == [utc : {0, 1, 3599, 3600, 43199, 43200, 86399}, season : {"winter", "summer"}]
+\* tz: a fixed offset in seconds east - or 99999 = the IANA zone Europe/Berlin (UTC+1, UTC+2 while daylight saving time
+\* is in force: the offset is that of the CONNECTION's date)
+ClockCfgs == [after : {0, 3600, 43200, 82800}, before : {0, 3600, 43200, 86399}, tz : {0, 3600, -18000, 99999}]
+Berlin == 99999
 Local(t, off) == (t + off + 86400) % 86400
 ClockRef(m, cfg) ==
   LET b0 == IF cfg.before = 0 THEN 86400 ELSE cfg.before
       a == IF b0 < cfg.after THEN b0 ELSE cfg.after
       b == IF b0 < cfg.after THEN cfg.after ELSE b0
-      t == Local(m.utc, cfg.tz) IN
+      off == IF cfg.tz = Berlin THEN (IF m.season = "summer" THEN 7200 ELSE 3600) ELSE cfg.tz
+      t == Local(m.utc, off) IN
   IF t >= a /\ t < b THEN "Y" ELSE "N"
 
 (***************************************************************************)
